@@ -670,6 +670,13 @@ def mon_C08(stream, case, obs):
                     wrote_ping = True
                     if K == 0:
                         hits.append((i, "k0-ping", "PINGREQ written although keepalive is 0"))
+            elif it[0] == "ev" and it[1].startswith("sopen"):
+                # the keep-alive clock of a connection starts when its socket is opened (the application may write the
+                # CONNECT much later when it drives the loop itself)
+                try:
+                    first_tx.setdefault(int(it[1][5:]), now)
+                except ValueError:
+                    pass
             elif it[0] == "ev" and it[1].startswith("on_disconnect:16"):
                 disc16 += 1
                 if K == 0:
